@@ -121,6 +121,10 @@ pub fn run(scn: &Scenario, record: bool) -> RunResult {
     {
         let mut g = w.lock().unwrap();
         g.rec.enabled = record;
+        g.inline_steps = scn.inline.clone();
+        if let Ok(mut n) = CURRENT_RUN.lock() {
+            *n = scn.name.clone();
+        }
         g.real = real;
         for ep in 0..2 {
             g.dirs[ep].wmax = if scn.io.wmax[ep] == 0 { usize::MAX } else { scn.io.wmax[ep] };
@@ -225,6 +229,7 @@ pub fn run(scn: &Scenario, record: bool) -> RunResult {
                     w.lock().unwrap().log(json!({"t": "stats", "ep": "c", "conn_done": false, "at": "drop_sr", "s": v}));
                 }
             }
+            w.lock().unwrap().inline_sr = None;
             guarded_drop(&w, "drop_sr", move || drop(srh));
         }
 
@@ -288,6 +293,17 @@ pub fn run(scn: &Scenario, record: bool) -> RunResult {
                     }
                 }
             }
+            // ... and on the handles parked for inline use (C20)
+            {
+                let parked: Vec<((usize, u32), ParkedSend)> = { let mut g = w.lock().unwrap(); g.parked_send.drain().collect() };
+                for ((ep, tag), p) in parked {
+                    let sid = p.stream.stream_id().as_u32();
+                    if let Ok(c) = catch_unwind(AssertUnwindSafe(|| p.stream.capacity())) {
+                        Api { w: &w, ep, task: "inline" }.ev("capacity", sid, tag, "ok", json!({"v": c, "census": true}));
+                    }
+                    w.lock().unwrap().parked_send.insert((ep, tag), p);
+                }
+            }
             w.lock().unwrap().log(json!({"t": "census_end"}));
             // guarded statistics snapshot (hook H2) at quiescence
             for s in slots.iter() {
@@ -318,6 +334,13 @@ pub fn run(scn: &Scenario, record: bool) -> RunResult {
                     }
                 }
             }
+            if !scn.inline.is_empty() {
+                let before = w.lock().unwrap().rec.n_events;
+                let _ = catch_unwind(AssertUnwindSafe(|| run_inline_at_q(&w, nq)));
+                if w.lock().unwrap().rec.n_events != before {
+                    progressed = true;
+                }
+            }
             for i in 0..scn.env.len() {
                 if !env_done[i] && scn.env[i].at == "q" && scn.env[i].n as usize <= nq {
                     env_done[i] = true;
@@ -339,7 +362,8 @@ pub fn run(scn: &Scenario, record: bool) -> RunResult {
             // tasks still waiting for a later quiescence keep the run going (bounded)
             if !progressed {
                 let waiting_later = slots.iter().any(|s| !s.done && s.task.waiting_q().map(|k| k > nq).unwrap_or(false))
-                    || scn.env.iter().enumerate().any(|(i, e)| !env_done[i] && e.at == "q");
+                    || scn.env.iter().enumerate().any(|(i, e)| !env_done[i] && e.at == "q")
+                    || w.lock().unwrap().inline_steps.iter().any(|s| s.at == "q");
                 if waiting_later && idle_rounds < 64 {
                     idle_rounds += 1;
                     continue;
@@ -520,6 +544,15 @@ pub fn run(scn: &Scenario, record: bool) -> RunResult {
     // With the `unstable` feature h2's stream store asserts in Drop that no stream record
     // is left; that assertion (or any other panic while dropping) is recorded as data.
     let r = catch_unwind(AssertUnwindSafe(|| {
+        // parked handles (C20) are application handles too
+        let (ps, pr, isr, ip) = {
+            let mut g = match w.lock() { Ok(g) => g, Err(p) => p.into_inner() };
+            (std::mem::take(&mut g.parked_send), std::mem::take(&mut g.parked_recv), g.inline_sr.take(), std::mem::take(&mut g.inline_ping))
+        };
+        drop(ps);
+        drop(pr);
+        drop(isr);
+        drop(ip);
         drop(spawn);
         let mut conns = vec![];
         for s in slots.drain(..) {
@@ -656,6 +689,7 @@ fn do_env(op: &EnvOp, w: &Shared, slots: &mut Vec<Slot>, reg: &mut Registry, spa
                 if let Ok(v) = serde_json::from_str::<serde_json::Value>(&catch_unwind(AssertUnwindSafe(|| srh.verif_snapshot())).unwrap_or_default()) {
                     w.lock().unwrap().log(json!({"t": "stats", "ep": "c", "conn_done": false, "at": "drop_sr", "s": v}));
                 }
+                w.lock().unwrap().inline_sr = None;
                 guarded_drop(w, "drop_sr", move || drop(srh));
             }
         }
